@@ -35,6 +35,7 @@ type UnitResult struct {
 	Validated      int                  `json:"validated,omitempty"`
 	WallMS         int64                `json:"wall_ms"`
 	Nontrivial     int                  `json:"nontrivial,omitempty"`
+	Poisoned       bool                 `json:"poisoned,omitempty"` // the worker must be restarted (a case is stuck in it)
 }
 
 // Unit is one piece of work of a check.
@@ -68,6 +69,9 @@ func main() {
 		os.Exit(coordinator(os.Args[2], os.Args[3]))
 	case "replay":
 		os.Exit(replay(os.Args[2]))
+	case "c11-child":
+		n, _ := strconv.Atoi(os.Args[2])
+		c11Child(n)
 	case "probe-format":
 		n, _ := strconv.ParseInt(os.Args[2], 10, 64)
 		probeFormat(n)
@@ -132,6 +136,9 @@ func worker(prop, tier string) {
 		out.Write(b)
 		out.WriteByte('\n')
 		out.Flush()
+		if res.Poisoned {
+			os.Exit(0)
+		}
 	}
 }
 
@@ -288,6 +295,16 @@ func coordinator(prop, tier string) int {
 				results[idx] = &res
 				mu.Unlock()
 				served++
+				if res.Poisoned {
+					_ = cmd.Process.Kill()
+					_ = cmd.Wait()
+					if err := startWorker(); err != nil {
+						mu.Lock()
+						infra = append(infra, "cannot restart worker: "+err.Error())
+						mu.Unlock()
+						return
+					}
+				}
 			}
 			stdin.Flush()
 			if c, ok := cmd.Stdin.(interface{ Close() error }); ok {
